@@ -181,7 +181,7 @@ func headerLine(l []byte, bh *Header) error {
 
 	var t Tag
 	for _, f := range fields[1:] {
-		if f[2] != ':' {
+		if len(f) < 3 || f[2] != ':' {
 			return errBadHeader
 		}
 		copy(t[:], f[:2])
@@ -230,7 +230,7 @@ func referenceLine(l []byte, bh *Header) error {
 	)
 
 	for _, f := range fields[1:] {
-		if f[2] != ':' {
+		if len(f) < 3 || f[2] != ':' {
 			return errBadHeader
 		}
 		copy(t[:], f[:2])
@@ -387,7 +387,7 @@ func readGroupLine(l []byte, bh *Header) error {
 	)
 
 	for _, f := range fields[1:] {
-		if f[2] != ':' {
+		if len(f) < 3 || f[2] != ':' {
 			return errBadHeader
 		}
 		copy(t[:], f[:2])
@@ -467,7 +467,7 @@ func programLine(l []byte, bh *Header) error {
 	)
 
 	for _, f := range fields[1:] {
-		if f[2] != ':' {
+		if len(f) < 3 || f[2] != ':' {
 			return errBadHeader
 		}
 		copy(t[:], f[:2])
